@@ -8,8 +8,11 @@ import (
 	"time"
 
 	"github.com/DataDog/datadog-traceroute/common"
+	"github.com/DataDog/datadog-traceroute/traceroute"
 
+	"verif/harness/drive"
 	"verif/harness/fw"
+	"verif/harness/gen"
 	"verif/harness/refmatch"
 	"verif/harness/scripted"
 )
@@ -279,6 +282,17 @@ func checkC03() fw.Check {
 								}
 								sc := scenario{tag: fmt.Sprintf("%s dist=%d", id, dist), v: v, win: w, b: b, model: func(e *simEnv) *pathModel {
 									m := &pathModel{hops: map[int]*hopSpec{}, dist: dist, destDelay: 4 * time.Millisecond}
+									if v.Proto == "udp" && (di+bi)%2 == 1 {
+										// a filtering target: administratively prohibited (IPv4 code 13 / 10, IPv6 code 1) instead of
+										// port unreachable - from the target's own address it ends the path all the same
+										code := uint8([]int{13, 10}[di%2])
+										if v.V6 {
+											code = 1
+										}
+										m.destBuild = func(e *simEnv, p *refmatch.Probe) []byte {
+											return gen.WrapError(e.spec.Target, e.local, gen.DestUnreach, code, gen.QuoteBytes(p, 1, "fix"), "min", nil, 0)
+										}
+									}
 									last := w.last
 									if dist > 0 {
 										last = dist - 1
@@ -305,7 +319,74 @@ func checkC03() fw.Check {
 					}
 				}
 			}
+			// the lists a whole request returns, after its post-processing (normalisation, private-hop redaction): still one
+			// entry per TTL, consecutive from the first TTL, whatever the first TTL and whichever entries were redacted
+			for i, proto := range []string{"udp", "icmp", "tcp"} {
+				for _, first := range []int{1, 3} {
+					for _, skip := range []bool{false, true} {
+						i, proto, first, skip := i, proto, first, skip
+						id := fmt.Sprintf("C03/request/%s/first%d/skip%v", proto, first, skip)
+						cases = append(cases, fw.Case{ID: id, Bubble: true, Run: func(c *fw.Ctx) { runC03Request(c, id, proto, first, skip, i) }})
+					}
+				}
+			}
 			return cases
 		},
 	}
+}
+
+func runC03Request(c *fw.Ctx, id, proto string, first int, skip bool, k int) {
+	resetProcessState()
+	v := map[string]refmatch.Variant{"udp": refmatch.VariantByName("udp4"), "icmp": refmatch.VariantByName("icmp4"), "tcp": refmatch.VariantByName("syn")}[proto]
+	target := drive.TargetFor(v, 50+c.Worker)
+	const maxTTL, dist = 9, 7
+	params := traceroute.TracerouteParams{Hostname: target.String(), Port: 33434, Protocol: proto, MinTTL: first, MaxTTL: maxTTL, Delay: 10, Timeout: 200 * time.Millisecond,
+		TCPMethod: traceroute.TCPConfigSYN, TracerouteQueries: 2, E2eQueries: 1, SkipPrivateHops: skip}
+	env, err := newReqEnv(c, params, target, 33434, false)
+	if err != nil {
+		c.Inconclusive(err.Error())
+		return
+	}
+	defer env.close()
+	env.modelFor = func(fk int, e *simEnv) *pathModel {
+		m := &pathModel{hops: map[int]*hopSpec{}, dist: dist, destDelay: 20 * time.Millisecond}
+		for t := int(e.spec.MinTTL); t < dist && t <= int(e.spec.MaxTTL); t++ {
+			if (t+k)%4 == 0 {
+				continue // silent
+			}
+			a := routerAddr(false, 1, t)
+			if t%2 == 1 {
+				a = netip.AddrFrom4([4]byte{10, 77, byte(fk), byte(t)}) // a private router
+			}
+			m.hops[t] = &hopSpec{addr: a, delay: time.Duration(2+t) * time.Millisecond}
+		}
+		return m
+	}
+	out, rerr := env.run(context.Background())
+	if rerr != nil || out == nil {
+		c.Violate("C03", "request-failed", fmt.Sprintf("%s: %v", id, rerr), nil)
+		return
+	}
+	for ri, run := range out.Traceroute.Runs {
+		var ttls []int
+		for _, h := range run.Hops {
+			ttls = append(ttls, h.TTL)
+		}
+		tag := fmt.Sprintf("%s run %d ttls %v", id, ri, ttls)
+		if len(run.Hops) != dist-first+1 {
+			c.Violate("C03", "request-length", fmt.Sprintf("%s: %d entries, the destination answers TTL %d and the first TTL is %d", tag, len(run.Hops), dist, first), nil)
+			continue
+		}
+		for j, h := range run.Hops {
+			if h.TTL != first+j {
+				c.Violate("C03", "request-ttl-sequence", fmt.Sprintf("%s: entry %d has TTL %d, expected %d", tag, j, h.TTL, first+j), nil)
+				break
+			}
+			if h.IsDest && j != len(run.Hops)-1 {
+				c.Violate("C03", "request-dest-not-last", fmt.Sprintf("%s: entry %d is marked as the destination", tag, j), nil)
+			}
+		}
+		c.Count("request_runs_shaped", 1)
+	}
+	c.Nontrivial(fmt.Sprintf("request/%s/first%d/skip%v", proto, first, skip))
 }
